@@ -326,6 +326,7 @@ type HCase struct {
 	Outages []int `json:"outages_ms"` // server down for this long, then restarted on the same ports
 	Kinds   []string `json:"kinds"`   // per outage: "down" (nothing listens) | "blackhole" (something accepts, swallows everything, never answers or closes)
 	TLS     bool  `json:"tls"`
+	Reload  bool  `json:"reload_during_outage"` // the configuration is reloaded while the server is away: one proxy added, one removed
 	UpMs    int   `json:"up_ms"`
 	TCPMux  bool  `json:"tcpmux"`
 	Proxies int   `json:"proxies"`
@@ -339,6 +340,7 @@ func genHeal(t *rapid.T) HCase {
 		c.Kinds = append(c.Kinds, rapid.SampledFrom([]string{"down", "down", "blackhole"}).Draw(t, fmt.Sprintf("k%d", i)))
 	}
 	c.TLS = rapid.Bool().Draw(t, "tls")
+	c.Reload = rapid.IntRange(0, 2).Draw(t, "reload") == 0
 	return c
 }
 
@@ -403,12 +405,17 @@ func runHeal(c HCase) error {
 		return fx.Inconclusive("%v", err)
 	}
 	defer cl.Close()
+	var removed []int
+	active := make([]int, 0, c.Proxies+1)
+	for i := 0; i < c.Proxies; i++ {
+		active = append(active, i)
+	}
 	tunnelsOK := func(within time.Duration) error {
 		deadline := time.Now().Add(within)
 		var last error
 		for {
 			ok := true
-			for i := 0; i < c.Proxies; i++ {
+			for _, i := range active {
 				cn, e := net.DialTimeout("tcp", fmt.Sprintf("127.0.0.1:%d", s.AllowPort(i)), time.Second)
 				if e != nil {
 					ok, last = false, e
@@ -436,6 +443,42 @@ func runHeal(c HCase) error {
 	for k, o := range c.Outages {
 		time.Sleep(time.Duration(c.UpMs) * time.Millisecond)
 		s.Close()
+		if c.Reload && k == 0 {
+			// `frpc reload` while the server is away - and the client has noticed and is in its reconnect loop:
+			// a new proxy appears, the first one goes (if another remains)
+			time.Sleep(600 * time.Millisecond)
+			l, e := net.Listen("tcp", "127.0.0.1:0")
+			if e != nil {
+				return fx.Inconclusive("%v", e)
+			}
+			bls = append(bls, l)
+			ni := len(pcs)
+			tag := fmt.Sprintf("B%d\n", ni)
+			go func() {
+				for {
+					cn, e := l.Accept()
+					if e != nil {
+						return
+					}
+					_, _ = cn.Write([]byte(tag))
+					cn.Close()
+				}
+			}()
+			np := &v1.TCPProxyConfig{}
+			np.Name, np.Type, np.LocalIP, np.LocalPort, np.RemotePort = fmt.Sprintf("p%d", ni), "tcp", "127.0.0.1", l.Addr().(*net.TCPAddr).Port, s.AllowPort(ni)
+			np.Complete(common.User)
+			pcs = append(pcs, np)
+			active = append(active, ni)
+			cur := append([]v1.ProxyConfigurer(nil), pcs...)
+			if c.Proxies >= 2 {
+				cur = cur[1:]
+				active = active[1:]
+				removed = append(removed, 0)
+			}
+			if e := cl.Svc.UpdateAllConfigurer(cur, nil); e != nil {
+				return fx.Inconclusive("reload: %v", e)
+			}
+		}
 		if k < len(c.Kinds) && c.Kinds[k] == "blackhole" {
 			// something still completes TCP handshakes on the server's port, reads what arrives and never answers
 			// nor closes (a frozen server behind a live kernel, a relay in front of a dead server)
@@ -483,7 +526,13 @@ func runHeal(c HCase) error {
 			if k < len(c.Kinds) {
 				kind = c.Kinds[k]
 			}
-			return fmt.Errorf("outage %d (%s, %d ms, tls=%v tcpMux=%v): 28 s after the server came back the tunnels still do not work: %v", k, kind, o, c.TLS, c.TCPMux, e)
+			return fmt.Errorf("outage %d (%s, %d ms, tls=%v tcpMux=%v, reloaded during the outage=%v, configured proxies now %v): 28 s after the server came back the tunnels still do not work: %v", k, kind, o, c.TLS, c.TCPMux, c.Reload && k == 0, active, e)
+		}
+		for _, ri := range removed {
+			if cn, e := net.DialTimeout("tcp", fmt.Sprintf("127.0.0.1:%d", s.AllowPort(ri)), time.Second); e == nil {
+				cn.Close()
+				return fmt.Errorf("outage %d: proxy p%d was removed from the configuration during the outage, after the reconnect its port is served again", k, ri)
+			}
 		}
 	}
 	return nil
